@@ -418,6 +418,7 @@ def run_phase(name, argv, srv):
             os.dup2(devnull, 1)
             os.dup2(devnull, 2)
             os.chdir(P["cwd"])
+            tempfile.tempdir = P["cwd"]            # the system's temporary directory, as far as Python is concerned
             sys.argv = argv
             os.environ["INSIGHTS_PHASE"] = name
             FakeSession.srv = srv
